@@ -291,7 +291,7 @@ pub fn search_c11(seed: u64, ctx: &mut Ctx) -> Option<J> {
                     return Some(f);
                 }
                 if UNWEIGHTED.contains(&repr)
-                    && !(order == 4 && heavy(repr, "complement") && mask % 16 != seed % 16)
+                    && !(order == 4 && heavy(repr, "complement") && mask % 32 != seed % 32)
                 {
                     if let Some(f) = ctx.eval(&unary(repr, "complement", g)) {
                         return Some(f);
@@ -314,13 +314,13 @@ pub fn search_c11(seed: u64, ctx: &mut Ctx) -> Option<J> {
         }
         if order == 3 {
             // union: every ordered pair of digraphs of order <= 3 (every
-            // sixteenth pair beyond order 2 for the thread-spawning impls)
+            // 32nd pair beyond order 2 for the thread-spawning impls)
             for (i, g) in small3.iter().enumerate() {
                 for (k, h) in small3.iter().enumerate() {
                     for repr in UNWEIGHTED {
                         if heavy(repr, "union")
                             && g.order().max(h.order()) == 3
-                            && (i * 69 + k) as u64 % 16 != seed % 16
+                            && (i * 69 + k) as u64 % 32 != seed % 32
                         {
                             continue;
                         }
@@ -352,12 +352,12 @@ pub fn search_c11(seed: u64, ctx: &mut Ctx) -> Option<J> {
                 return Some(f);
             }
             if UNWEIGHTED.contains(&repr) {
-                if !heavy(repr, "complement") || i % 16 == 0 {
+                if !heavy(repr, "complement") || i % 32 == 0 {
                     if let Some(f) = ctx.eval(&unary(repr, "complement", g.clone())) {
                         return Some(f);
                     }
                 }
-                if heavy(repr, "union") && i % 16 != 0 {
+                if heavy(repr, "union") && i % 32 != 0 {
                     continue;
                 }
                 let mut c = unary(repr, "union", g);
@@ -377,7 +377,7 @@ pub fn search_c11(seed: u64, ctx: &mut Ctx) -> Option<J> {
             let o = 1 + rng.below(5);
             random_g(&mut rng, o, &[])
         };
-        if i % 16 == 0 {
+        if i % 32 == 0 {
             let mut c = unary("AdjacencyMap", "union", g.clone());
             c.h = Some(h.clone());
             c.k = Some(random_noncontiguous_g(&mut rng, &[]));
@@ -599,6 +599,11 @@ pub fn search_c12(seed: u64, ctx: &mut Ctx) -> Option<J> {
     for order in 1..=4usize {
         for mask in 0..(1u64 << (order * (order - 1))) {
             for repr in ALL_REPRS {
+                // AdjacencyList::is_semicomplete spawns a thread per vertex on
+                // dense digraphs: at order 4 it sees every eighth digraph
+                if order == 4 && repr == "AdjacencyList" && mask % 8 != seed % 8 {
+                    continue;
+                }
                 let mut g = g_from_mask(order, mask);
                 reweigh(&mut rng, &mut g, repr);
                 let c = C12 {
@@ -671,13 +676,15 @@ pub fn search_c12(seed: u64, ctx: &mut Ctx) -> Option<J> {
                 _ => random_g(&mut rng, order, &[]),
             };
             reweigh(&mut rng, &mut g, repr);
-            let c = C12 {
-                repr: repr.to_string(),
-                g: g.clone(),
-                h: None,
-            };
-            if let Some(f) = ctx.eval(&c) {
-                return Some(f);
+            if repr != "AdjacencyList" || i % 8 == 0 {
+                let c = C12 {
+                    repr: repr.to_string(),
+                    g: g.clone(),
+                    h: None,
+                };
+                if let Some(f) = ctx.eval(&c) {
+                    return Some(f);
+                }
             }
             // a sub / super / unrelated digraph of another order
             let mut h = g.clone();
